@@ -14,6 +14,10 @@ use crate::{msgcode, msgtext};
 
 struct RepeatedBoolVisitor {
     diagnostics: Vec<Diagnostic>,
+    /// The operator of the boolean chain that we're currently inside,
+    /// if any. `a || b || c` is parsed as `(a || b) || c`, and we only
+    /// want to check the whole chain, not `a || b` again.
+    enclosing_chain_op: Option<BinaryOperatorKind>,
 }
 
 /// Return true if the expression is pure (no side effects), meaning
@@ -116,7 +120,21 @@ fn is_boolean_chain_root(expr: &Expression) -> Option<&BinaryOperatorSymbol> {
 
 impl Visitor for RepeatedBoolVisitor {
     fn visit_expr(&mut self, expr: &Expression) {
-        if let Some(op_sym) = is_boolean_chain_root(expr) {
+        let chain_op = is_boolean_chain_root(expr);
+
+        // Parentheses don't end a chain, because `collect_operands`
+        // looks inside them.
+        let prev_enclosing_chain_op = self.enclosing_chain_op;
+        if !matches!(expr.expr_, Expression_::Parentheses(_)) {
+            self.enclosing_chain_op = chain_op.map(|op_sym| op_sym.kind);
+        }
+
+        let is_root = match chain_op {
+            Some(op_sym) => prev_enclosing_chain_op != Some(op_sym.kind),
+            None => false,
+        };
+
+        if let (Some(op_sym), true) = (chain_op, is_root) {
             let operands = collect_operands(expr, op_sym);
 
             if operands.len() >= 2 {
@@ -165,12 +183,15 @@ impl Visitor for RepeatedBoolVisitor {
         }
 
         self.visit_expr_(&expr.expr_);
+
+        self.enclosing_chain_op = prev_enclosing_chain_op;
     }
 }
 
 pub(crate) fn check_repeated_bool(items: &[ToplevelItem]) -> Vec<Diagnostic> {
     let mut visitor = RepeatedBoolVisitor {
         diagnostics: vec![],
+        enclosing_chain_op: None,
     };
     for item in items {
         visitor.visit_toplevel_item(item);
